@@ -6,6 +6,7 @@
 
 void (*vh_pre_call_hook)(vh_obj *ob, int is_cleanup_of_object, int op_index);
 void (*vh_post_call_hook)(vh_obj *ob, int op_index);
+int vh_ro_inert_cleanup;
 
 const char *const c_kind_names[C_NKINDS] = {"init", "cleanup", "set_key", "set_tweaked_key", "set_tweak", "set_counter", "encrypt"};
 
@@ -448,7 +449,11 @@ void chist_exec(const chist *h, int i, vh_obj *ob, ctrans *t, const char *prefix
         if (obj && ret) { ob->live = 1; if (t->backend < 0) t->backend = c->ctr_backend(&ob->H); }
         break;
     case C_CLEANUP:
-        vh_call_begin("ctr_cleanup"); c->ctr_cleanup(obj); vh_call_end();
+        if (obj && !ob->live && vh_ro_inert_cleanup) {
+            vh_handle *ro = (vh_handle *)vh_ro_copy(1, &ob->H, sizeof(ob->H));
+            vh_call_begin("ctr_cleanup(inert, read-only handle)"); c->ctr_cleanup(ro); vh_call_end();
+            vh_ro_release(1);
+        } else { vh_call_begin("ctr_cleanup"); c->ctr_cleanup(obj); vh_call_end(); }
         if (obj) ob->live = 0;
         break;
     case C_SET_KEY:
